@@ -91,22 +91,23 @@ type cwRig struct {
 	cc   *goat.ClientConn
 	srv  *goat.Server
 
-	mu       sync.Mutex
-	events   []string // client API events since the last snapshot
-	hevents  []string // handler events since the last snapshot
-	pend     map[string]bool
-	ctxs     []context.Context
-	cancels  []context.CancelFunc
-	deadline []time.Time // zero = none
-	expired  []bool
-	strs     []grpc.ClientStream
-	kinds    []string
-	ids      map[int]uint64
-	payloads []int64
-	nCalls   int
-	handlers map[int]*cwHandler
-	ugates   map[int64]chan struct{}
-	serveRet bool
+	mu          sync.Mutex
+	sendWFailed map[int]bool // calls with an operation that failed with a transport write error (see classFor)
+	events      []string     // client API events since the last snapshot
+	hevents     []string     // handler events since the last snapshot
+	pend        map[string]bool
+	ctxs        []context.Context
+	cancels     []context.CancelFunc
+	deadline    []time.Time // zero = none
+	expired     []bool
+	strs        []grpc.ClientStream
+	kinds       []string
+	ids         map[int]uint64
+	payloads    []int64
+	nCalls      int
+	handlers    map[int]*cwHandler
+	ugates      map[int64]chan struct{}
+	serveRet    bool
 	// the stream loop held at the yield point cs.loop.read
 	loopArmed bool
 	loopGate  chan struct{}
@@ -227,7 +228,13 @@ func (r *cwRig) streamHandler(kind string, s grpc.ServerStream) error {
 				r.hev(fmt.Sprintf("HRecv %s (HErr %s)", cz, herrClass(err)))
 			}
 		case "send":
-			err := s.SendMsg(bv(payloadOf(op.B)))
+			var err error
+			if op.B < 0 {
+				// a message the codec rejects: Marshal fails before anything is written
+				err = s.SendMsg("not a protobuf message")
+			} else {
+				err = s.SendMsg(bv(payloadOf(op.B)))
+			}
 			r.hev(fmt.Sprintf("HSend %s %s", cz, herrClass(err)))
 		case "sendheader":
 			err := s.SendHeader(mdMD(op.B))
@@ -378,7 +385,7 @@ func (r *cwRig) do(a Step) []string {
 			} else if err == nil {
 				r.ev(fmt.Sprintf("EvRecvRet %d (RMsg %s)", c, coqZ(tokenOf(m.Value))))
 			} else {
-				r.ev(fmt.Sprintf("EvRecvRet %d (RErr %s)", c, classOf(err)))
+				r.ev(fmt.Sprintf("EvRecvRet %d (RErr %s)", c, r.classFor(c, err)))
 			}
 			r.setPending(k, false)
 		}()
@@ -399,7 +406,7 @@ func (r *cwRig) do(a Step) []string {
 			} else {
 				err = cs.SendMsg(bv(payloadOf(b)))
 			}
-			r.ev(fmt.Sprintf("EvSendRet %d %s", c, optErr(err)))
+			r.ev(fmt.Sprintf("EvSendRet %d %s", c, r.optErrFor(c, err)))
 			r.setPending(k, false)
 		}()
 		return []string{fmt.Sprintf("ASend %d %s", a.C, coqZ(a.B))}
@@ -413,7 +420,7 @@ func (r *cwRig) do(a Step) []string {
 		c := a.C
 		go func() {
 			err := cs.CloseSend()
-			r.ev(fmt.Sprintf("EvCloseSendRet %d %s", c, optErr(err)))
+			r.ev(fmt.Sprintf("EvCloseSendRet %d %s", c, r.optErrFor(c, err)))
 			r.setPending(k, false)
 		}()
 		return []string{fmt.Sprintf("ACloseSend %d", a.C)}
@@ -428,7 +435,7 @@ func (r *cwRig) do(a Step) []string {
 		go func() {
 			md, err := cs.Header()
 			if err != nil {
-				r.ev(fmt.Sprintf("EvHeaderRet %d (inr %s)", c, classOf(err)))
+				r.ev(fmt.Sprintf("EvHeaderRet %d (inr %s)", c, r.classFor(c, err)))
 			} else {
 				r.ev(fmt.Sprintf("EvHeaderRet %d (inl (MdOk %s))", c, coqZ(mdTokenOf(md))))
 			}
@@ -488,7 +495,7 @@ func (r *cwRig) do(a Step) []string {
 		}
 		r.cancels[a.C]()
 		err := cs.SendMsg(bv(payloadOf(a.B)))
-		r.ev(fmt.Sprintf("EvSendRet %d %s", a.C, optErr(err)))
+		r.ev(fmt.Sprintf("EvSendRet %d %s", a.C, r.optErrFor(a.C, err)))
 		r.mu.Lock()
 		g := r.loopGate
 		r.loopGate = nil
@@ -506,7 +513,7 @@ func (r *cwRig) do(a Step) []string {
 		}
 		r.cancels[a.C]()
 		err := cs.SendMsg(bv(payloadOf(a.B)))
-		r.ev(fmt.Sprintf("EvSendRet %d %s", a.C, optErr(err)))
+		r.ev(fmt.Sprintf("EvSendRet %d %s", a.C, r.optErrFor(a.C, err)))
 		return []string{fmt.Sprintf("ACancel %d", a.C), fmt.Sprintf("ASend %d %s", a.C, coqZ(a.B))}
 	case "tick":
 		time.Sleep(time.Duration(a.D) * time.Millisecond)
@@ -613,12 +620,59 @@ func (r *cwRig) do(a Step) []string {
 			r.link.C.FailWrites(nil)
 		}
 		return []string{"ASetWriteFail " + coqBool(a.B != 0)}
+	case "sblock":
+		// back-pressure on the server's side of the transport: its Writes block (B != 0) / are released (B == 0)
+		if a.B != 0 {
+			r.link.S.BlockWrites()
+		} else {
+			r.link.S.UnblockWrites()
+		}
+		return nil
+	case "cblock":
+		// back-pressure on the client's side of the transport (no model action: the scenario performs no client Write
+		// while it lasts, except a teardown's reset: see cancelblk)
+		if a.B != 0 {
+			r.link.C.BlockWrites()
+		} else {
+			r.link.C.UnblockWrites()
+		}
+		return nil
 	case "srvfail":
 		// the server's transport fails: Serve returns
 		r.link.S.FailRead(errInjected)
 		return nil
 	}
 	panic("cw: unknown op " + a.Op)
+}
+
+// classFor: the class of an error returned by an operation on call c. ONE observable is canonicalised: after a
+// SendMsg of the call failed with a transport write error, clientStream.teardown unregisters the handler and only
+// then cancels the stream context; the stream loop, parked in Read, may wake in between (handler closed, context
+// still live) and then ends with "respChan closed" instead of Canceled (measured: 9 of 300 runs of one scenario).
+// Model/Client.v's teardown is atomic (always Canceled); the race breaks none of C06/C07/C11, so for operations on a
+// call AFTER such a failed SendMsg both values are the same class: "respChan closed" is reported as Canceled.
+func (r *cwRig) classFor(c int, err error) string {
+	cl := classOf(err)
+	r.mu.Lock()
+	failed := r.sendWFailed[c]
+	if cl == "EWrite" {
+		if r.sendWFailed == nil {
+			r.sendWFailed = map[int]bool{}
+		}
+		r.sendWFailed[c] = true
+	}
+	r.mu.Unlock()
+	if failed && cl == "EClosed" {
+		return "ECanceled"
+	}
+	return cl
+}
+
+func (r *cwRig) optErrFor(c int, err error) string {
+	if err == nil {
+		return "None"
+	}
+	return "(Some " + r.classFor(c, err) + ")"
 }
 
 // ---------------------------------------------------------------- envelopes as Coq terms
